@@ -230,10 +230,12 @@ void TcpConnection::sendInLoop(const void* data, size_t len)
 
 void TcpConnection::shutdown()
 {
-  // FIXME: use compare and swap
-  if (state_ == kConnected)
+  // test and store in one step: if the loop thread takes the connection down
+  // (handleClose: kDisconnected) between a separate test and store, the store
+  // revives it and it is closed - and reported DOWN - a second time
+  StateE expected = kConnected;
+  if (state_.compare_exchange_strong(expected, kDisconnecting))
   {
-    setState(kDisconnecting);
     // queued, so that it stays behind every send() accepted before it,
     // whichever thread made that send()
     loop_->queueInLoop(makeWeakCallback(shared_from_this(), &TcpConnection::shutdownInLoop));
@@ -274,21 +276,31 @@ void TcpConnection::shutdownInLoop()
 //                        &TcpConnection::forceCloseInLoop));
 // }
 
+bool TcpConnection::markDisconnecting()
+{
+  StateE s = state_;
+  while (s == kConnected || s == kDisconnecting)
+  {
+    if (state_.compare_exchange_weak(s, kDisconnecting))
+    {
+      return true;
+    }
+  }
+  return false;
+}
+
 void TcpConnection::forceClose()
 {
-  // FIXME: use compare and swap
-  if (state_ == kConnected || state_ == kDisconnecting)
+  if (markDisconnecting())
   {
-    setState(kDisconnecting);
     loop_->queueInLoop(std::bind(&TcpConnection::forceCloseInLoop, shared_from_this()));
   }
 }
 
 void TcpConnection::forceCloseWithDelay(double seconds)
 {
-  if (state_ == kConnected || state_ == kDisconnecting)
+  if (markDisconnecting())
   {
-    setState(kDisconnecting);
     loop_->runAfter(
         seconds,
         makeWeakCallback(shared_from_this(),
